@@ -50,6 +50,14 @@ def arbitrary_inputs(rng, valid_docs):
              "{ a(x: \"\\u00e9\") }", "query ($v: Int = 1 { a }", "subscription { a }", "mutation { a }",
              "{ ...F }", "{ a @skip }", "{ a @skip(if: 1) }", "{ a(x: $nope) }", "{\n\n  a(\n x: [1,\n\n 2 }"]
     out = list(fixed)
+    # very deep nesting (selection sets, list / object literals, unbalanced): whatever the parser, the transformer
+    # or a validator does with it -- RecursionError included -- execute must still answer with a response
+    for depth in (400, 1000, 3000):
+        out.append("{ a " * depth + "{ b }" + " }" * depth)
+        out.append("{ a(x: " + "[" * depth + "1" + "]" * depth + ") }")
+        out.append("{ a(x: " + "{k: " * depth + "1" + "}" * depth + ") }")
+        out.append("{ a { " * depth)
+        out.append("query Q { ...F } fragment F on Query " + "{ a " * depth + "{ b }" + " }" * depth)
     for _ in range(40):
         n = rng.randrange(1, 40)
         out.append(bytes(rng.randrange(256) for _ in range(n)))
